@@ -55,6 +55,8 @@ def case_st(draw):
             "badhost": draw(st.sampled_from([None, None, "a", "b", "c"])),
             "bad_after": draw(st.sampled_from([0, 0, 1, 2])),  # the bad host presents its pinned certificate on the first k connections
             "identity": draw(st.sampled_from([None, None, "ec-b", "rsa-a"])),
+            "ctx": draw(st.sampled_from(["plain", "plain", "after"])),
+            "pair": draw(st.sampled_from(["plain", "plain", "twin"])),
             "dbfault": draw(st.sampled_from([None, None, None, 1, 2, 3, 4, 5])),
             "sslctx": draw(st.sampled_from(["own", "own", "supplied"]))}  # TLS context built by the client or handed in by the caller  # trust-store failure at the n-th statement of the fetch  # the client is configured with a client certificate
 
@@ -144,6 +146,10 @@ def run_case(case: dict):
     d = scratch.subdir("c16")
     dbpath = Path(d) / "tofu.db"
     nodes = case["nodes"]
+    # the genuine certificate and the one the changed host presents: unrelated ones, or a forgery that copies issuer name
+    # and serial number of the genuine one (both are free text in a self-signed certificate) with another key
+    twin = case["pair"] == "twin" if "pair" in case else (len(nodes) + case["maxr"] + case["start"]) % 2 == 1
+    GOOD, BAD = ("twin-a", "twin-b") if twin else ("ec-a", "ec-b")
 
     async def scenario(loop):
         net = memnet.MemNet()
@@ -167,14 +173,14 @@ def run_case(case: dict):
                     return f"{nd['status']} {url_of(nd['to'], nd['port'], nd.get('upper', False))}\r\n".encode()
                 return f"{nd['status']} {nd['meta']}\r\n".encode()
 
-            peers[h] = memnet.ScriptedPeer(certs.get("ec-b" if h == case["badhost"] else "ec-a"),
+            peers[h] = memnet.ScriptedPeer(certs.get(BAD if h == case["badhost"] else GOOD),
                                            [("wait_request", 1.0), ("respond", respond), ("close",)])
             if h == case["badhost"] and case.get("bad_after"):
-                peers[h].cert_sequence = [certs.get("ec-a")] * case["bad_after"] + [certs.get("ec-b")]
+                peers[h].cert_sequence = [certs.get(GOOD)] * case["bad_after"] + [certs.get(BAD)]
             net.add(h, 1965, peers[h])
         db = TOFUDatabase(dbpath)
         for h in HOSTS:
-            db.trust(h, 1965, x509.load_der_x509_certificate(certs.get("ec-a").der))
+            db.trust(h, 1965, x509.load_der_x509_certificate(certs.get(GOOD).der))
         ident = {}
         if case.get("identity"):
             ic = certs.get(case["identity"])
@@ -184,6 +190,11 @@ def run_case(case: dict):
 
             ident = {"ssl_context": create_client_context()}
         client = GeminiClient(timeout=10, max_redirects=case["maxr"], tofu_db_path=dbpath, **ident)
+        after_ctx = case["ctx"] == "after" if "ctx" in case else (len(nodes) + case["maxr"]) % 3 == 0
+        if after_ctx:
+            # the long-lived client object has been through an `async with` block before it is used for this fetch
+            async with client:
+                pass
         from props import c12
 
         c12._patch()
